@@ -7,9 +7,10 @@ from gen import jsongen as G
 from lib.core import existing_modules
 
 ID = "C20"
-LEVEL = "other"
-LEAN_MODULES = existing_modules(["Sonic.Props.C20"]) + ["Sonic.Spec.Json"]
-REQUIRED_THEOREMS = []
+LEVEL = "proof"
+LEAN_MODULES = ['Sonic.Props.C20']
+REQUIRED_THEOREMS = ["Sonic.Props.C20." + n for n in ["C20_spec_props", "C20_tree_merge", "C20_parseLazy", "C20_serialize", "C20_model_eq_spec",
+                                                         "C20_key_spelling", "C20_no_member_lost"]]
 CONFIGS = [("avx2", "prod"), ("sse", "prod"), ("avx2", "san"), ("sse", "san")]
 CONFIGS_THOROUGH = CONFIGS + [("dyn", "prod")]
 ENV = {"MALLOC_PERTURB_": "243"}
@@ -22,7 +23,10 @@ EXPLANATION = ("Oracle: Spec.Merge.update (Lean, from the statement) on the valu
                "UpdateNodeLazy, serialisation of raw nodes) must produce the identical bytes (L2). Theorems listed in the evidence.")
 ASSUMPTIONS = ["inputs are valid JSON without duplicate keys (the property's hypothesis)"]
 TRUSTED = ["Spec.Merge.update / Spec.Json.parse as oracle (compiled Lean evaluation)"]
-LEVEL_TEXT = "Theorems as listed in the evidence + spec-oracle correspondence on generated pairs."
+LEVEL_TEXT = ("Machine-checked proof (Lean 4, C20_model_eq_spec): for every pair of valid JSON texts, vector width and key-buffer content the "
+              "literal model of UpdateLazy (one-level lazy parse with raw slices via the on-demand skipper, decoded keys, UpdateNodeLazy, "
+              "serialisation of raw nodes) returns a text that the RFC 8259 spec parses to Spec.Merge.update of the two values; keys match by "
+              "decoded value, no member is lost. The model is tied to the compiled code by byte-exact correspondence of the output.")
 LEVEL_NOTE = "Trusted: Lean kernel; standard axioms; compiled Lean evaluation; harness; sanitizers."
 TECHNIQUE = "Lean 4 spec + model theorems; differential correspondence against the statement-derived merge"
 
